@@ -1,44 +1,201 @@
 import os
 
-def _gen(repo, verif, bdir, tier):
+# ---- generator of c10_geoms.h: the geometries searched by BFS and their static-initialiser twins.
+# A twin is one object `static messageq_t x = MESSAGEQ_VAR_INIT(<pointer expression>, <base_len expression>, <msg_len
+# expression>)`. The three arguments are SPELLED in every way a caller may legally spell a constant: a literal, and an
+# expression whose top-level operator comes from each precedence level of C at or below the operators a macro body can
+# apply to an unparenthesised argument (cast, division): * / % + - << >> & ^ | ?: (and > == && || where the value is 1),
+# sizeof and a cast. Every spelling is pinned to its intended value by a _Static_assert in the generated header (integers)
+# or by a run-time comparison in the harness (pointers).
+
+FULL_PRODUCT = [(3, 4, 1), (1, 1, 0), (2, 3, 2), (32, 4, 3), (5, 12, 11), (3, 40000, 1)]
+
+# pointer spellings; c10_sa is a union { uint8_t b[]; uint32_t w[]; uint64_t q[]; }, every spelling means c10_sa.b + 64
+PTR_FORMS = [
+    ('macro', 'C10_STATIC_BASE'),
+    ('add-u32', 'c10_sa.w + 16'),
+    ('addr-of', '&c10_sa.b[64]'),
+    ('add-sub-u64', 'c10_sa.q + 16 - 8'),
+    ('cond', '1 ? (void *) (c10_sa.b + 64) : (void *) c10_sa.b'),
+]
+
+
+def _low(v):
+    return v & -v
+
+
+def _ctz(v):
+    return (_low(v)).bit_length() - 1
+
+
+def bl_forms(d, m, s, types):
+    """spellings of base_len = d*m+s (the numerator of base_len / msg_len)"""
+    v = d * m + s
+    b = s if s else 1
+    types.add(v); types.add(m)
+    f = [('lit', '%d' % v), ('mul', '1 * %d' % v), ('div', '%d / 2' % (2 * v)), ('mod', '%d %% %d' % (2 * v + 1, v + 1)),
+         ('add', '%d + %d' % (v - b, b)), ('sub', '%d - %d' % (v + m, m)), ('shl', '%d << %d' % (v >> _ctz(v), _ctz(v))),
+         ('shr', '%d >> 1' % (2 * v)), ('and', '%d & 16777215' % v), ('xor', '%d ^ 16777216' % (v ^ 16777216)),
+         ('or', '%d | %d' % (v & ~_low(v), _low(v))), ('cond', '1 ? %d : 1' % v), ('sizeof', 'sizeof(c10_ty_%d)' % v),
+         ('cast', '(size_t) %d' % v), ('n-sizeof-plus', '%d * sizeof(c10_ty_%d) + %d' % (d, m, s))]
+    if v == 1:
+        f += [('rel', '2 > 1')]
+    return f
+
+
+def ml_forms(v, types):
+    """spellings of msg_len = v (the denominator); the first operand is never 0 so that a macro that drops its
+    parentheses miscomputes instead of dividing by zero at compile time"""
+    types.add(v)
+    f = [('lit', '%d' % v), ('mul', '1 * %d' % v), ('div', '%d / 2' % (2 * v)), ('mod', '%d %% %d' % (3 * v + 1, 2 * v + 1)),
+         ('add', '1 + %d' % (v - 1)), ('sub', '%d - 1' % (v + 1)), ('shl', '%d << %d' % (v >> _ctz(v), _ctz(v))),
+         ('shr', '%d >> 1' % (2 * v)), ('and', '65535 & %d' % v), ('xor', '%d ^ 65536' % (v ^ 65536)),
+         ('or', '%d | %d' % (v, _low(v))), ('cond', '1 ? %d : %d' % (v, v + 1)), ('sizeof', 'sizeof(c10_ty_%d)' % v),
+         ('cast', '(uint16_t) %d' % v)]
+    if v == 1:
+        f += [('rel', '2 > 1'), ('eq', '1 == 1'), ('land', '1 && 1'), ('lor', '1 || 0')]
+    return f
+
+
+def geometries():
     geoms = []
     for d in range(1, 33):
         for m in (1, 2, 3, 4, 7, 8, 12):
             for s in sorted({0, 1, m - 1}):
                 if s < m:
                     geoms.append((d, m, s))
-    # message sizes near the 16-bit limit of the descriptor: offsets beyond 64 KiB, slot arithmetic in 16/32 bits
-    for d, m, sl in ((2, 65535, 0), (3, 32768, 0), (3, 40000, 1), (5, 16384, 3), (17, 4096, 0), (32, 4096, 1), (32, 2115, 0), (32, 65535, 0), (31, 2200, 7)):
-        geoms.append((d, m, sl))
+    # message sizes up to the 16-bit limit of the descriptor: offsets beyond 64 KiB, slot arithmetic in 16/32 bits
+    geoms += [(2, 65535, 0), (3, 32768, 0), (3, 40000, 1), (5, 16384, 3), (17, 4096, 0), (32, 4096, 1), (32, 2115, 0),
+              (32, 65535, 0), (31, 2200, 7),
+              (4, 40000, 0), (7, 24000, 5), (14, 7000, 0), (9, 5000, 1), (32, 3000, 0), (32, 10000, 3), (32, 50000, 1)]
+    return geoms
+
+
+MAXD, MAXM = 32, 65535      # depths of the statement; largest message size enumerated
+
+
+def _gen(repo, verif, bdir, tier):
+    """c10_types.h (shared declarations), c10_geoms.h (geometry table + the plain twin of every geometry, part of the
+    harness translation unit) and one optional compile unit per base_len spelling class, c10_spelled_<k>.c, each with an
+    empty stand-in c10_spelled_<k>_empty.c: a header under which one legal spelling no longer compiles must not take the
+    whole check down (bin/check compiles the stand-in, says so in a note and stops calling the run exhaustive)."""
+    geoms = geometries()
+    types = set()
+    nb = len(bl_forms(1, 1, 0, set()))          # the largest number of base_len spellings (value 1 has all of them)
+    units = [[] for _ in range(nb)]             # per base_len spelling class: (geometry index, ptr, bl, ml)
+    for gi, (d, m, s) in enumerate(geoms):
+        B, M = bl_forms(d, m, s, types), ml_forms(m, types)
+        if (d, m, s) in FULL_PRODUCT:
+            k = 0
+            for bi, b in enumerate(B):
+                for q in M:
+                    units[bi].append((gi, PTR_FORMS[k % len(PTR_FORMS)], b, q))
+                    k += 1
+        else:
+            # one rotating combination of spellings
+            bi = gi % len(B)
+            units[bi].append((gi, PTR_FORMS[gi % len(PTR_FORMS)], B[bi], M[(gi * 7 + gi // len(B)) % len(M)]))
+    with open(os.path.join(bdir, 'c10_types.h'), 'w') as f:
+        f.write('#ifndef C10_TYPES_H_\n#define C10_TYPES_H_\n#include <stddef.h>\n#include <stdint.h>\n#include <librfn/messageq.h>\n')
+        f.write('#define C10_MAXD %d\n#define C10_MAXM %d\n' % (MAXD, MAXM))
+        f.write('#define C10_ARENA_MAX ((C10_MAXD + 1) * C10_MAXM + 16)\n')
+        f.write('typedef union { uint8_t b[C10_ARENA_MAX + 192]; uint32_t w[(C10_ARENA_MAX + 192) / 4]; uint64_t q[(C10_ARENA_MAX + 192) / 8]; } c10_sa_t;\n')
+        f.write('extern c10_sa_t c10_sa;\n#define C10_STATIC_BASE (c10_sa.b + 64)\n')
+        f.write('typedef struct { messageq_t *obj; const char *text; int geom; } c10_twin_t;\n')
+        f.write('typedef struct { int d, m, s; } c10_geom_t;\n')
+        f.write('typedef struct { const c10_twin_t *t; int n; const char *what; } c10_unit_t;\n')
+        for v in sorted(types):
+            f.write('typedef uint8_t c10_ty_%d[%d];\n' % (v, v))
+        f.write('#endif\n')
+    for k, tw in enumerate(units):
+        with open(os.path.join(bdir, 'c10_spelled_%d.c' % k), 'w') as f:
+            f.write('#include "c10_types.h"\n')
+            for j, (gi, p, b, q) in enumerate(tw):
+                d, m, s = geoms[gi]
+                f.write('_Static_assert((%s) == %d && (%s) == %d, "generator: spelling does not mean its value");\n' % (b[1], d * m + s, q[1], m))
+                f.write('static messageq_t c10_u%d_%d = MESSAGEQ_VAR_INIT(%s, %s, %s);\n' % (k, j, p[1], b[1], q[1]))
+            f.write('const c10_twin_t c10_spelled_%d[] = {\n' % k)
+            for j, (gi, p, b, q) in enumerate(tw):
+                f.write(' { &c10_u%d_%d, "MESSAGEQ_VAR_INIT(%s, %s, %s)", %d },\n' % (k, j, p[1], b[1], q[1], gi))
+            f.write(' { NULL, NULL, -1 }\n};\nconst int c10_spelled_%d_n = %d;\n' % (k, len(tw)))
+        with open(os.path.join(bdir, 'c10_spelled_%d_empty.c' % k), 'w') as f:
+            f.write('#include "c10_types.h"\nconst c10_twin_t c10_spelled_%d[] = { { NULL, NULL, -1 } };\nconst int c10_spelled_%d_n = 0;\n' % (k, k))
     with open(os.path.join(bdir, 'c10_geoms.h'), 'w') as f:
-        for i, (d, m, s) in enumerate(geoms):
-            f.write('static messageq_t sq_%d = MESSAGEQ_VAR_INIT(STATIC_BASE, %d, %d);\n' % (i, d * m + s, m))
-        f.write('static const geom_t geoms[] = {\n')
-        for i, (d, m, s) in enumerate(geoms):
-            f.write(' { %d, %d, %d, &sq_%d },\n' % (d, m, s, i))
-        f.write('};\n')
+        for gi, (d, m, s) in enumerate(geoms):
+            f.write('static messageq_t c10_plain_%d = MESSAGEQ_VAR_INIT(C10_STATIC_BASE, %d, %d);\n' % (gi, d * m + s, m))
+        f.write('static const c10_twin_t c10_plain[] = {\n')
+        for gi, (d, m, s) in enumerate(geoms):
+            f.write(' { &c10_plain_%d, "MESSAGEQ_VAR_INIT(C10_STATIC_BASE, %d, %d)", %d },\n' % (gi, d * m + s, m, gi))
+        f.write('};\nstatic const c10_geom_t c10_geoms[] = {\n')
+        for (d, m, s) in geoms:
+            f.write(' { %d, %d, %d },\n' % (d, m, s))
+        f.write('};\n#define C10_UNITS %d\nstatic c10_unit_t c10_units[C10_UNITS];\n' % nb)
+        for k in range(nb):
+            f.write('extern const c10_twin_t c10_spelled_%d[]; extern const int c10_spelled_%d_n;\n' % (k, k))
+        f.write('static void c10_units_init(void)\n{\n')
+        tags = [t for t, _ in bl_forms(1, 1, 0, set())]
+        for k in range(nb):
+            f.write('\tc10_units[%d] = (c10_unit_t){ c10_spelled_%d, c10_spelled_%d_n, "base_len spelled with %s" };\n' % (k, k, k, tags[k]))
+        f.write('}\nstatic uint8_t *c10_ptr_form(int k)\n{\n\tswitch (k) {\n')
+        for k, (tag, text) in enumerate(PTR_FORMS):
+            f.write('\tcase %d: return (uint8_t *) (%s);\n' % (k, text))
+        f.write('\t}\n\treturn NULL;\n}\n#define C10_PTR_FORMS %d\n' % len(PTR_FORMS))
+
+
+N_UNITS = len(bl_forms(1, 1, 0, set()))
+SPELLED_OBJS = [('@BUILD@/c10_spelled_%d.c' % k, [], '@BUILD@/c10_spelled_%d_empty.c' % k,
+                 'the static twins whose base_len argument is spelled with "%s"' % bl_forms(1, 1, 0, set())[k][0])
+                for k in range(N_UNITS)]
 
 CHECK = dict(
     level='model_checking',
-    parts=[dict(name='c10', src=['harness/c10_messageq.c'], workers=16, prebuild=_gen,
-                deadline=dict(quick=150, thorough=1500))],
-    rule='explicit-state BFS to a fixpoint, one run per geometry (depth, msg_len, slack) and constructor, driving the real '
-         'messageq.c sequentially: claim / send (any claimed-unsent message) / receive / release (oldest held); each '
-         'transition is compared with a per-slot status model (returned pointers, NULLs, messageq_empty, payload, guard and '
-         'slack bytes); distinct = distinct raw (descriptor + model) images per geometry',
-    bounds=dict(quick='9 geometries with message sizes 2115..65535 (storage beyond 64 KiB); depths 1..32 with msg_len 4 (slack 0,1,3) and all 7 message sizes x slacks at depths 1,2,3,8,31,32; '
-                      'depth<=5: complete reachable space; depth 6..12: at most 3 claimed-unsent messages; depth>=13: at '
-                      'most 2 claimed-unsent and 3 held; both constructors compared field by field for every geometry, '
-                      'static twin explored for depth<=4 and 32',
-                thorough='all 32 depths x msg_len {1,2,3,4,7,8,12} x slack {0,1,msg_len-1}; depth<=7: complete reachable space; depth 8..16: at most 4 claimed-unsent; depth>=17: at most 3 claimed-unsent and 5 held'),
+    parts=[dict(name='c10', src=['harness/c10_messageq.c'], lib=['messageq.c'], objs=SPELLED_OBJS, workers=16, prebuild=_gen,
+                deadline=dict(quick=600, thorough=3000))],
+    rule='four families, all driving the real messageq.c (linked as an object of its own; the harness sees the public header '
+         'only) sequentially and all judged by one oracle: a per-slot status model (free/claimed/sent/held, three cyclic '
+         'cursors; the first buffer a fresh queue hands out fixes where the cycle starts) against every returned pointer, NULL, '
+         'messageq_empty answer, the payload of owned slots, the slack and the guard bytes. (A) explicit-state BFS to a '
+         'fixpoint, one search per geometry (depth, msg_len, slack), alphabet claim / send (any claimed-unsent message) / '
+         'receive / release (oldest held) / messageq_init again on the used descriptor; the descriptor handed to messageq_init '
+         'is filled with 0x00, 0xFF and 0xA5 first (an image the first search has visited is not searched again). (B) static '
+         'initialiser: for every geometry a plain MESSAGEQ_VAR_INIT object plus objects whose arguments are spelled as '
+         'expressions - base_len and msg_len with a top-level operator of every class * / % + - << >> & ^ | ?: (> == && || for '
+         'the value 1), sizeof, a cast, n*sizeof(T)+slack; the storage pointer as a parenthesised macro, &array[i], unparenthesised '
+         'pointer sums over uint32_t and uint64_t views and a conditional; every spelling is pinned to its value by _Static_assert. '
+         'A twin whose image is byte-identical to what messageq_init builds is equivalent; any other image is searched like (A) in '
+         'place; the plain twin of depths <= 4 and 32 is searched anyway. (C) counter start states: N real '
+         'claim-send-receive-release cycles, each compared, with N on both sides of 2^8 and 2^16 (thorough: also 2^31 and 2^32); '
+         'at each N the image must be one search (A) visited, else a search starts there. (D) geometry sweep: one fixed history '
+         'of 9*depth+6 operations (fill, overfull claim, send+receive one by one, rotate, fill across the wrap, send newest first, '
+         'drain) per case. states/transitions = BFS; traces = BFS transitions + sweep operations; a state is distinct by its raw '
+         '(descriptor + model + library statics) image within one search',
+    bounds=dict(quick='(A) 16 geometries with message sizes 2115..65535 (storage beyond 64 KiB); depths 1..32 with msg_len 4 (slack 0,1,3) and all 7 message '
+                      'sizes {1,2,3,4,7,8,12} x slacks {0,1,msg_len-1} at depths 1,2,3,8,31,32; depth<=5: complete reachable space; depth 6..12: at '
+                      'most 3 claimed-unsent messages; depth>=13: at most 2 claimed-unsent and 3 held. (B) all 592 geometries of the thorough tier: plain twin + one '
+                      'rotating spelling; 6 geometries x full product (15-16 base_len spellings x 14-18 msg_len spellings, pointer spelling '
+                      'rotating). (C) depths 1..32 at msg_len 4 slack 1: N in {254,255,256,257,65534,65535,65536,65537}. (D) every msg_len '
+                      '1..65535 at depth 32, and depths 1..31 for msg_len <= 16, 2^k-1 / 2^k / 2^k+1 (k <= 16) and {100,1000,2114,2115,3000,5000,7000,'
+                      '10000,24000,40000,50000,65534}; slack 0 and msg_len-1',
+                thorough='(A) all 32 depths x msg_len {1,2,3,4,7,8,12} x slack {0,1,msg_len-1} + the 16 large geometries; depth<=7: complete '
+                         'reachable space; depth 8..16: at most 4 claimed-unsent; depth>=17: at most 3 claimed-unsent and 5 held. (B) as quick. '
+                         '(C) as quick, and for depths 3 and 31 on to N in {2^31-2..2^31+1, 2^32-2..2^32+1} (4.3e9 real cycles each). (D) every '
+                         'msg_len 1..65535 at every depth 1..32, slack 0 and msg_len-1'),
     assumptions=['sequential use only (concurrency is C04)', 'releases follow receives in order (API rule)',
-                 'for depth>5 the number of claimed-but-unsent (and for depth>12 held) messages is bounded as stated'],
-    technique='explicit-state model checking: BFS to a fixpoint per queue geometry over the real messageq.c against a slot-status model',
-    level_text='For every geometry the reachable state space of sequential claim/send/receive/release histories (sends '
+                 'for depth>5 the number of claimed-but-unsent (and for depth>12 held) messages in the BFS is bounded as stated',
+                 'message sizes up to 65535 (the width of the descriptor field today)',
+                 'counters wider than 32 bits cannot be driven to their wrap by real calls; a 2^32 wrap only in the thorough tier',
+                 'where the cycle of buffers starts on a fresh queue is not judged; two constructors "describe the same queue" when both '
+                 'conform to the same model from their first operation on (raw state-graph sizes are reported, not judged)'],
+    technique='explicit-state model checking: BFS to a fixpoint per queue geometry over the real messageq.c against a slot-status model, '
+              'plus exhaustive enumeration of scripted histories over all message sizes and of argument spellings of the static initialiser',
+    level_text='For every geometry the reachable state space of sequential claim/send/receive/release/re-init histories (sends '
                'reordered among claimed messages) is enumerated to a fixpoint on the real code and every returned pointer, '
-               'NULL and messageq_empty answer compared with a bounded-FIFO model; both constructors are compared for every '
-               'geometry. For depth > 5 the fixpoint is under a stated bound on outstanding unsent/held messages.',
-    level_note='Trusted: the slot-status model. Depth > 5 restricted to <=3 (<=2 beyond 12) claimed-unsent messages.',
+               'NULL and messageq_empty answer compared with a bounded-FIFO model; the static initialiser is instantiated with '
+               'literal and expression arguments of every operator class and compared with messageq_init for every geometry; '
+               'every message size 1..65535 is swept with a fixed wrap-crossing history; cursor counters are driven by real calls '
+               'across 2^8 and 2^16 (2^31, 2^32 in the thorough tier). For depth > 5 the fixpoint is under a stated bound on '
+               'outstanding unsent/held messages.',
+    level_note='Trusted: the slot-status model. Depth > 5 restricted to <=3 (<=2 beyond 12) claimed-unsent messages in the BFS.',
     design_ref='DESIGN.md section 4, C10',
 )
 
